@@ -39,7 +39,7 @@ reg(P(
 
 reg(P(
     "C11", "Names resolve to the innermost visible earlier definition",
-    [("B5", ALL), ("V1", {"reference"}), ("B1", ALL), ("C5", {"owner", "qualifier"}), ("A7", {"key"})],
+    [("B5", ALL), ("V1", {"reference"}), ("B1", ALL), ("C5", {"owner", "qualifier", "nesting"}), ("A7", {"key"})],
     "lookup walks the current file's slice of the scope stack innermost first and returns the first hit; scopes become members only when complete; dotted names descend only through scopes; an import is pushed under its `as` name exactly for the 4-symbol alternative; the object found is the one stored in the field/array/alias (V1); the generators name the resolved definition and no like-named one: the reverse lookup Scope.get_name_by_member compares by identity (B5), the C name prefix is the one of the file the definition is bound to and an imported definition is qualified with the name the importing file gave the import (C5 parts owner / qualifier).",
     "no schema is compiled; the behaviour of dict/list primitives is trusted.",
 ))
@@ -138,7 +138,7 @@ reg(P(
 
 reg(P(
     "C10", "Every accepted schema yields code the target toolchains accept (narrow: necessary structural conditions)",
-    [("F2", ALL), ("F1", ALL), ("A2", ALL), ("A1", {"render"}), ("A13", ALL), ("F6", ALL), ("F6b", ALL), ("F7", ALL), ("F8", ALL), ("C5", {"common", "owner", "qualifier", "binding", "outfile"}), ("F9", ALL), ("F10", ALL), ("A7", {"key"}), ("F11", ALL), ("C6", ALL)],
+    [("F2", ALL), ("F1", ALL), ("A2", ALL), ("A1", {"render"}), ("A13", ALL), ("F6", ALL), ("F6b", ALL), ("F7", ALL), ("F8", ALL), ("C5", {"common", "owner", "qualifier", "binding", "outfile", "nesting"}), ("F9", ALL), ("F10", ALL), ("A7", {"key"}), ("F11", ALL), ("C6", ALL)],
     "definitions are emitted children first in declaration order for the bound proto (F2); each block class pushes balanced brackets and #if/#endif on every path (F1); rendering raises no internal error: exhaustive dispatch, abstract coverage, render-context and push_string discipline (A2, A1 render part, A13); internal helper-name templates are uniquely decodable (F6); include/import statements name the file the compiler generates (F7).",
     "whether gcc, g++, CPython or Go accept the output (that needs the output); struct layout equality in C++; reserved words.",
 ))
